@@ -22,38 +22,105 @@ def gen_case(seed, idx, ncycles):
     return {"seed": seed, "idx": idx, "ncycles": ncycles}
 
 
-def gen_tree(rnd, depth, eacc):
-    """returns (python field collection, token list)"""
+def gen_shape_tree(rnd, depth, eacc):
+    """abstract field collection: ("F", shape kind, width, access) | ("D", [(key, sub)…]) | ("L", [sub…])"""
     r = rnd.random()
     if depth >= 3 or r < 0.45:
         shp = rnd.choice(["u", "u", "u", "s", "e", "z"])
         if shp == "e":
-            w, shape = 2, Color
+            w = 2
         elif shp == "z":
-            w, shape = 0, unsigned(0)
+            w = 0
         else:
             w = rnd.randint(1, 9)
-            shape = unsigned(w) if shp == "u" else signed(w)
         accs = {"rw": ["r", "w", "rw", "nc"], "r": ["r", "nc", "r"], "w": ["w", "nc", "w"]}[eacc]
         acc = rnd.choice(accs)
         if rnd.random() < 0.06:
             acc = rnd.choice(["r", "w", "rw", "nc"])        # possibly incompatible with the register
-        return csr.Field(Probe, shape, acc), ["F", str(w), acc]
+        return ("F", shp, w, acc)
     n = rnd.randint(1, 3)
     if r < 0.75:
         keys = rnd.sample(["a", "b", "c", "d", "_e", "f0"], n)
-        d, toks = {}, ["D", str(n)]
-        for k in keys:
-            v, t = gen_tree(rnd, depth + 1, eacc)
+        return ("D", [(k, gen_shape_tree(rnd, depth + 1, eacc)) for k in keys])
+    return ("L", [gen_shape_tree(rnd, depth + 1, eacc) for _ in range(n)])
+
+
+def vary(rnd2, t, eacc):
+    """later additions (own random stream): sibling keys whose `__`-joined paths coincide
+    (`{"a": {"b": F}, "a__b": G}`, `{"b": [F], "b__0": G}` — distinct paths, legal), and zero-width
+    fields with an access mode the register cannot serve"""
+    if t[0] == "F":
+        _, shp, w, acc = t
+        if w == 0 and rnd2.random() < 0.3:
+            acc = rnd2.choice(["r", "w", "rw"])
+        return ("F", shp, w, acc)
+    if t[0] == "L":
+        return ("L", [vary(rnd2, x, eacc) for x in t[1]])
+    items = [(k, vary(rnd2, x, eacc)) for k, x in t[1]]
+    if len(items) >= 2 and rnd2.random() < 0.35:
+        cands = []
+        for k, x in items:
+            if x[0] == "D":
+                cands += [(k, f"{k}__{j}") for j, _ in x[1]]
+            elif x[0] == "L":
+                cands += [(k, f"{k}__{n}") for n in range(len(x[1]))]
+        if cands:
+            owner, joined = rnd2.choice(cands)
+            others = [n for n, (k, _) in enumerate(items) if k != owner]
+            n = rnd2.choice(others)
+            items[n] = (joined, items[n][1])
+    return ("D", items)
+
+
+def build(t):
+    """(python field collection, token list) of an abstract tree"""
+    if t[0] == "F":
+        _, shp, w, acc = t
+        shape = Color if shp == "e" else unsigned(0) if shp == "z" else unsigned(w) if shp == "u" else signed(w)
+        return csr.Field(Probe, shape, acc), ["F", str(w), acc]
+    if t[0] == "D":
+        d, toks = {}, ["D", str(len(t[1]))]
+        for k, x in t[1]:
+            v, tk = build(x)
             d[k] = v
-            toks += [k] + t
+            toks += [k] + tk
         return d, toks
-    lst, toks = [], ["L", str(n)]
-    for _ in range(n):
-        v, t = gen_tree(rnd, depth + 1, eacc)
+    lst, toks = [], ["L", str(len(t[1]))]
+    for x in t[1]:
+        v, tk = build(x)
         lst.append(v)
-        toks += t
+        toks += tk
     return lst, toks
+
+
+def gen_tree(rnd, depth, eacc, rnd2=None):
+    """returns (python field collection, token list)"""
+    t = gen_shape_tree(rnd, depth, eacc)
+    if rnd2 is not None:
+        t = vary(rnd2, t, eacc)
+    return build(t)
+
+
+def _paths(toks):
+    """field paths of a token list"""
+    out, pos = [], [0]
+
+    def walk(prefix):
+        k = toks[pos[0]]
+        if k == "F":
+            pos[0] += 3
+            out.append(prefix)
+        elif k == "D":
+            n = int(toks[pos[0] + 1]); pos[0] += 2
+            for _ in range(n):
+                key = toks[pos[0]]; pos[0] += 1
+                walk(prefix + (key,))
+        else:
+            n = int(toks[pos[0] + 1]); pos[0] += 2
+            for i in range(n):
+                walk(prefix + (i,))
+    walk(())
+    return out
 
 
 def path_str(p):
@@ -63,9 +130,10 @@ def path_str(p):
 def run_impl(case):
     rnd = lib.rng_for(case["seed"], case["idx"], 1111)
     eacc = rnd.choice(["rw", "rw", "r", "w"])
-    fields, toks = gen_tree(rnd, 0, eacc)
+    fields, toks = gen_tree(rnd, 0, eacc, lib.rng_for(case["seed"], case["idx"], 1121))
     lines = ["case " + eacc + " " + " ".join(toks)]
-    stats = {"refused": 0, "annot": 0, "fields": 0, "nested": int(toks[0] != "F"), "nonreadable_in_middle": 0, "cycles": 0}
+    stats = {"refused": 0, "annot": 0, "fields": 0, "nested": int(toks[0] != "F"), "nonreadable_in_middle": 0, "cycles": 0,
+             "joined_name_collision": int(len({"__".join(map(str, p)) for p in _paths(toks)}) < len(_paths(toks)))}
     fails, obs = [], []
     how = rnd.choice(["arg", "arg", "annot"]) if isinstance(fields, dict) else "arg"
     try:
@@ -88,12 +156,20 @@ def run_impl(case):
     offs = [sum(widths[:k]) for k in range(len(widths))]
     if any(a in ("w", "nc") and w > 0 for a, w in list(zip(accs, widths))[:-1]):
         stats["nonreadable_in_middle"] = 1
-    if rnd.random() < 0.3:
-        # a register object may be elaborated more than once (simulated, then synthesised, …):
-        # what is checked below is then its second elaboration
-        Simulator(simutil.wrap(dut))
-        stats["pre_elaborated"] = 1
-    sim = Simulator(simutil.wrap(dut))
+    try:
+        if rnd.random() < 0.3:
+            # a register object may be elaborated more than once (simulated, then synthesised, …):
+            # what is checked below is then its second elaboration
+            Simulator(simutil.wrap(dut))
+            stats["pre_elaborated"] = 1
+        sim = Simulator(simutil.wrap(dut))
+    except Exception as e:
+        if not lib.from_code_under_test(e):
+            raise
+        # a register that was accepted at construction must be elaborable
+        obs.append(f"elaboration raised {type(e).__name__}")
+        fails.append(("C11", f"register accepted at construction cannot be elaborated: {type(e).__name__}: {e}", 0))
+        return {"lines": lines + ["end"], "obs": obs, "fails": fails, "stats": stats, "key": lines[0]}
     sim.add_clock(1e-6)
     rd, wr = dut.element.access.readable(), dut.element.access.writable()
 
